@@ -1259,6 +1259,9 @@ class SmtLibParser(object):
         """(assert <term>)"""
         expr = self.get_expression(tokens)
         self.consume_closing(tokens, current)
+        if not self.get_type(cast(FNode, expr)).is_bool_type():
+            raise PysmtSyntaxError("Only boolean terms can be asserted: '%s'" % expr,
+                                   tokens.pos_info)
         return SmtLibCommand(current, [expr])
 
     def _cmd_assert_soft(self, current: str, tokens: Tokenizer) -> SmtLibCommand:
